@@ -57,14 +57,14 @@ vars == <<phase, bb, ee, mm>>
 Init == phase = 0 /\ bb = 0 /\ ee = 0 /\ mm = 1
 Pick == phase = 0 /\ phase' = 1 /\ bb' \in (-BMAX)..BMAX /\ ee' \in (-3)..EMAX /\ mm' \in ((-MMAX)..MMAX) \ {0}
 Spec == Init /\ [][Pick]_vars
-RECURSIVE PowI(_, _)
-PowI(x, e) == IF e = 0 THEN 1 ELSE x * PowI(x, e - 1)
+RECURSIVE PowModI(_, _, _)
+PowModI(x, e, m) == IF e = 0 THEN 1 % m ELSE ((x % m) * PowModI(x, e - 1, m)) % m        \* the definition, reduced at every step (TLC integers are 32 bit)
 Correct == phase = 1 =>
    LET m == AbsI(mm)  res == Powm(bb, ee, mm) IN
    \* the W-bit scaling of "e has more than one limb => b^e = 0 mod 2^t" needs t < 2^W, as n*64 < 2^64 holds at the real width
    (Ctz(m) < Bw) =>
-     IF ee >= 0 THEN ~res.sig /\ res.r = (PowI(bb, ee) % m)
+     IF ee >= 0 THEN ~res.sig /\ res.r = PowModI(bb, ee, m)
      ELSE IF GcdI(AbsI(bb) % m, m) = 1 \/ m = 1
-          THEN ~res.sig /\ res.r \in 0..(m - 1) /\ (res.r * PowI(bb, -ee)) % m = 1 % m
+          THEN ~res.sig /\ res.r \in 0..(m - 1) /\ (res.r * PowModI(bb, -ee, m)) % m = 1 % m
           ELSE res.sig
 =============================================================================
